@@ -52,6 +52,9 @@ pub enum Cmd {
     /// a simple command whose words all expand to nothing: its status is that of the last command
     /// substitution performed (XCU 2.9.1); `shape` picks where empty words stand around it
     SubstOnly { st: i32, shape: u8 },
+    /// `var=val </nonexistent/file` : no command word; the redirection is tried in a subshell, its
+    /// failure is reported but the assignment is still made (docs/src/language/commands/simple.md)
+    AssignRedirFail { var: &'static str, val: String },
     /// `: $((n=VAL))` : an assignment made by arithmetic expansion (to the visible variable, else global)
     ArithAssign { val: u32 },
     /// `: ${var=val}` : assigns if the variable is unset (to the visible variable, else globally)
@@ -292,6 +295,11 @@ impl Sh {
                 self.set(var, val.clone());
                 self.status = 0;
                 Flow::Normal
+            }
+            Cmd::AssignRedirFail { var, val } => {
+                self.set(var, val.clone());
+                self.status = NZ;
+                self.errexit_check()
             }
             Cmd::ArithAssign { val } => {
                 self.set("n", val.to_string());
@@ -949,6 +957,7 @@ impl Render<'_> {
             Cmd::ProbeVar { id, var } => format!("pvar k{id} {var}"),
             Cmd::ProbePos { id } => format!("probe k{id} \"$#\" \"${{1-}}\""),
             Cmd::Assign { var, val } => format!("{var}={val}"),
+            Cmd::AssignRedirFail { var, val } => format!("{var}={val} </nonexistent/file"),
             Cmd::ArithAssign { val } => format!(": $((n={val}))"),
             Cmd::AssignSwitch { var, val, colon } => format!(": ${{{var}{}={val}}}", if *colon { ":" } else { "" }),
             Cmd::True => "true".into(),
@@ -1243,7 +1252,8 @@ impl<'a> Gen<'a> {
             let id = self.id();
             let var = *self.rng.pick(&["x", "y"]);
             let val = format!("{}{}", var, id);
-            return match self.rng.below(15) {
+            return match self.rng.below(16) {
+                15 => Cmd::AssignRedirFail { var, val },
                 13 => Cmd::ArithAssign { val: id },
                 14 => Cmd::ProbeVar { id, var: "n" },
                 12 => Cmd::ProbeVar { id, var: "t" },
@@ -1282,9 +1292,15 @@ impl<'a> Gen<'a> {
                     val,
                     cmd: Box::new(Cmd::Call(self.rng.range(1, self.nfuncs as usize) as u32)),
                 },
-                8 if cx.in_func => Cmd::Local { var, val },
+                8 if cx.in_func && self.rng.chance(50) => Cmd::Local { var, val },
+                // a local hiding a global, unset inside the function: both go (documented), so the
+                // variable must read as unset here and after the function returns
+                8 if cx.in_func => {
+                    let id2 = self.id();
+                    Cmd::Seq(vec![Cmd::Local { var, val }, Cmd::Unset(var), Cmd::ProbeVar { id: id2, var }])
+                }
                 9 => Cmd::Export(var),
-                10 if !cx.in_func => Cmd::Unset(var),
+                10 => Cmd::Unset(var),
                 _ => {
                     if self.rng.chance(50) {
                         Cmd::SetPos(self.rng.pick(&[vec![], vec!["p"], vec!["p", "q"]]).clone())
